@@ -21,7 +21,7 @@ from typing import Any, Dict, List, Optional
 
 from . import vthreads
 from .recorder import (InjectedFault, Recorder, StepBudgetExceeded, Tap, make_emit_listener,
-                       make_subscriber)
+                       make_subscriber, make_witness_subscriber)
 from .render import build
 from .vloop import LoopDeadlock, run_virtual
 
@@ -186,6 +186,8 @@ def run_sync(spec: dict, history: List[list], opts: Optional[dict] = None) -> Ru
         if not opts.get("no_tap"):
             interp.use(Tap(rec))
             interp.subscribe(make_subscriber(rec))
+            if opts.get("witness_subscriber"):
+                interp.subscribe(make_witness_subscriber(rec))
             interp.on("*", make_emit_listener(rec))
         ops = list(history)
         if not opts.get("no_autostart"):
@@ -236,6 +238,8 @@ def run_sync(spec: dict, history: List[list], opts: Optional[dict] = None) -> Ru
                         if not opts.get("no_tap"):
                             interp.use(Tap(rec))
                             interp.subscribe(make_subscriber(rec))
+                            if opts.get("witness_subscriber"):
+                                interp.subscribe(make_witness_subscriber(rec))
                             interp.on("*", make_emit_listener(rec))
                         old.stop()
                         extra["resnap"] = interp.get_snapshot()
@@ -366,6 +370,8 @@ def run_async(spec: dict, history: List[list], opts: Optional[dict] = None) -> R
         if not opts.get("no_tap"):
             interp.use(Tap(rec))
             interp.subscribe(make_subscriber(rec))
+            if opts.get("witness_subscriber"):
+                interp.subscribe(make_witness_subscriber(rec))
             interp.on("*", make_emit_listener(rec))
         ops = list(history)
         if not opts.get("no_autostart"):
@@ -415,6 +421,8 @@ def run_async(spec: dict, history: List[list], opts: Optional[dict] = None) -> R
                         if not opts.get("no_tap"):
                             interp.use(Tap(rec))
                             interp.subscribe(make_subscriber(rec))
+                            if opts.get("witness_subscriber"):
+                                interp.subscribe(make_witness_subscriber(rec))
                             interp.on("*", make_emit_listener(rec))
                         await old.stop()
                         extra["resnap"] = interp.get_snapshot()
